@@ -54,6 +54,10 @@ def run(ctx):
     # Systematic (which evaluation is held) x (interfering operations) x (operations afterwards) + seeded random event lists;
     # judged by the property (nobody parked on a true condition, returned waits had a true condition); the stack cases are
     # evaluated in Coq, where the callback is a step of its own with the mutex held (Corr.v hsys)
+    # + callbacks that panic (harness/cmd/c17/panic.go, kinds cntp / stkp): one-shot panics at the entry of the callback / after it
+    # read resp. was held (arrivals queued on the mutex while the panic unwinds); the caller recovers; afterwards waits / updates
+    # of other goroutines and the observer (which takes the mutex, under a watchdog) must work as on the state the code left at
+    # the panic point. Go-side oracle only. Directed case first: known finding counter-panicking-subscriber-skips-broadcast
     ctx.corr(hx, ["scripted", "--what", "hold", "--n", "900" if thorough else "200"], cases_name="cases_hold.v")
     nfree = "25" if thorough else "4"
     for tag, hxt in variants:
@@ -88,6 +92,11 @@ def run(ctx):
         "two woken goroutines for the same resource are excluded by the generator (at most one PopOrWait thread per case)",
         "Counter: int overflow of value+delta is outside the model (values are unbounded integers); subscribers are not modelled "
         "in Coq (a subscriber held inside Set/Update while waits and updates arrive is judged by the Go-side oracle only)",
+        "callbacks that panic (Counter subscriber, PopOrWait's waitCondition; the caller recovers) are outside the Coq model: the Go-side "
+        "oracle of the hold family judges what follows (no leaked mutex: every later wait / update / observer returns or parks; nobody "
+        "parked on a true condition; Counter: the value written before the subscribers ran stays, Stack: unchanged). A Counter "
+        "subscriber only panics when no wait is parked (exact: read under valueMutex) because Set/Update skip their Broadcast when "
+        "set()/update() unwinds - known finding counter-panicking-subscriber-skips-broadcast, reproduced by a directed case",
         "PopOrWait's wait condition is modelled as a callback that reads one boolean when it returns; it is evaluated as a step of "
         "its own with the stack's mutex held (tied to the code by the held-callback cases: operations arriving while a caller is "
         "inside its callback must be blocked on the mutex, decided from the goroutine wait reasons sync.(RW)Mutex.(R)Lock of the Go "
